@@ -3,7 +3,8 @@
 From Coq Require Import List Bool Reals Lia.
 From QP Require Import Cx Apply Gates Rsem.
 From QPM Require Import Transpile.
-From QPG Require Import templates.
+From QPG Require Import templates fusers.
+From QP Require Import Local.
 Import ListNotations.
 
 (* every decomposition template found in the repository passes the exact matrix check *)
@@ -33,6 +34,59 @@ Proof.
   pose proof templates_all_ok as H. rewrite forallb_forall in H. apply H, Hts, Ht.
 Qed.
 Print Assumptions parallel_decomposer_sound.
+
+(* adjacent-gate fusers: the most general window accepted by is_target_sequence (regenerated from
+   the source: gate names + index equalities) is equivalent to the gate list fuse() returns *)
+Definition fuser_ok (f : nat * list gate * list gate) : bool :=
+  let '(n, window, body) := f in
+  check_equiv2 (seq 0 n) (map eg body) (map eg window) && forallb gate_ok body && forallb gate_ok window.
+
+Theorem fusers_all_ok : forallb fuser_ok fusers_all = true.
+Proof. vm_compute. reflexivity. Qed.
+
+Theorem fused_window_sound :
+  forall n window body, In (n, window, body) fusers_all ->
+  forall theta pi, (forall a b : nat, pi a = pi b -> a = b) ->
+  forall pre post,
+  csem (pre ++ map (fun g => rsem (inst theta pi g)) body ++ post)
+  ≃ csem (pre ++ map (fun g => rsem (inst theta pi g)) window ++ post).
+Proof.
+  intros n window body Hin theta pi Hpi pre post.
+  pose proof fusers_all_ok as H. rewrite forallb_forall in H. specialize (H _ Hin). simpl in H.
+  apply andb_true_iff in H as [H Hw]. apply andb_true_iff in H as [Hc Hb].
+  apply csem_app_equiv; [apply opequiv_refl|].
+  apply csem_app_equiv; [|apply opequiv_refl].
+  apply (tmpl_sound2 theta pi Hpi (seq 0 n)); auto.
+Qed.
+Print Assumptions fused_window_sound.
+
+(* CliffordConversionTranspiler: every candidate sequence of _equiv_clifford_table implements its key *)
+Definition cliff_row_ok (row : gkind * list (list gkind)) : bool :=
+  let '(key, cands) := row in
+  forallb (fun cand => tmpl_check [0%nat] (map (fun k => mkG k [0%nat] []) cand) (mkG key [0%nat] [])
+                       && forallb gate_ok (map (fun k => mkG k [0%nat] []) cand) && gate_ok (mkG key [0%nat] [])) cands.
+
+Theorem clifford_table_ok : forallb cliff_row_ok clifford_table = true.
+Proof. vm_compute. reflexivity. Qed.
+
+Theorem clifford_candidate_sound :
+  forall key cands cand, In (key, cands) clifford_table -> In cand cands ->
+  forall q : nat,
+  csem (map (fun k => rsem (mkC k [q] [])) cand) ≃ lsem (rsem (mkC key [q] [])).
+Proof.
+  intros key cands cand Hrow Hc q.
+  pose proof clifford_table_ok as H. rewrite forallb_forall in H. specialize (H _ Hrow). simpl in H.
+  rewrite forallb_forall in H. specialize (H _ Hc).
+  apply andb_true_iff in H as [H H3]. apply andb_true_iff in H as [H1 H2].
+  pose proof (tmpl_sound (fun _ => 0%R) (fun i => (q + i)%nat) ltac:(intros a b E; cbv beta in E; lia) [0%nat] _ _ H1 H2 H3) as T.
+  rewrite map_map in T.
+  assert (E1 : inst (fun _ : nat => 0%R) (fun i : nat => (q + i)%nat) (mkG key [0%nat] []) = mkC key [q] []).
+  { unfold inst. simpl. rewrite Nat.add_0_r. reflexivity. }
+  rewrite E1 in T.
+  rewrite (map_ext _ (fun k => rsem (mkC k [q] []))) in T; [exact T|].
+  intros k. unfold inst. simpl. rewrite Nat.add_0_r. reflexivity.
+Qed.
+Print Assumptions clifford_candidate_sound.
 
 (* non-vacuity: the theorem's hypotheses are met by a concrete circuit *)
 Example c01_nonvacuous :
